@@ -991,11 +991,13 @@ class Interp:
             from . import modular
             self.contract_log.add(info.qualname)
             return modular.apply_contract(self, self.contracts[info.qualname], info, args, kwargs)
-        model = self.lib.function_model(info.qualname)
-        if model is None and (info.qualname != self.verifying or self.in_body):
-            model = self.hooks.get('model:' + info.qualname)
+        model = None
+        if info.qualname != self.verifying or self.in_body:
+            model = self.hooks.get('model:' + info.qualname)      # a contract's own model takes precedence over the library's
             if model is not None:
                 self.ctx.lib_used.add('assumed model of %s supplied by the contract of %s' % (info.qualname, self.verifying))
+        if model is None:
+            model = self.lib.function_model(info.qualname)
         if model is not None and not force_body:
             return model(self, *args, **kwargs)
         if info.qualname != self.verifying:
